@@ -20,3 +20,15 @@ func NewTransportPair(o faultconn.Options, cfgA, cfgB *lime.TCPConfig) *Transpor
 		CA: ca, CB: cb,
 	}
 }
+
+// Close closes both transports at once: a closing transport lingers (bounded) for its peer's close, so closing them
+// one after the other would make every pair wait out the first one's linger.
+func (tp *TransportPair) Close() {
+	done := make(chan struct{})
+	go func() {
+		_ = tp.A.Close()
+		close(done)
+	}()
+	_ = tp.B.Close()
+	<-done
+}
